@@ -318,28 +318,54 @@ Definition csv_accepts_delimiter (fmt : N) (d : bytes) : bool :=
   then len_in_bounds csv_delim_min_len csv_delim_max_len (rune_count d) && csv_delim_check (fst (decode_rune d))
   else len_in_bounds csv2_delim_min_len csv2_delim_max_len (rune_count d) && csv2_delim_check (fst (decode_rune d)).
 
-(* The old csv reader's jumpTo: `for r.r.LineNum() < rowIndex { _, err := r.r.Read(); if err ==
-   io.EOF { return io.EOF } }`.  The csv reader state is the line counter and the number of
-   physical lines left; how many lines one record spans is content dependent ([span]). *)
+(* The old csv reader's jumpTo after fix 35247f5:
+     for r.r.LineNum() < rowIndex {
+       _, err := r.r.Read()
+       if err == io.EOF { return io.EOF }
+       if err != nil { if not a *csv.ParseError { r.readErr = ...; return r.readErr } } }
+   The csv reader state is the line counter and the number of physical lines left; how many lines
+   one record spans is content dependent ([span]); whether the underlying input reader fails at
+   this point is [io_fails] (any predicate: transient or persistent). *)
 Record csvst := mkCsv { numline : nat; lines_left : nat }.
-Inductive jump := JumpDone (s : csvst) | JumpEOF | JumpOutOfFuel.
+Inductive jump := JumpDone (s : csvst) | JumpEOF | JumpFailed | JumpOutOfFuel.
+(* a record or a csv.ParseError; io.EOF; any other error (errInvalidDelim, an input failure) *)
+Inductive csvres := CsvRecOrParseErr | CsvEOF | CsvOtherErr.
 
 Section Jump.
   Variable span : csvst -> nat.
+  Variable io_fails : csvst -> bool.
   (* one Reader.Read call: errInvalidDelim without touching the input when the delimiter is
-     unusable; io.EOF at the end; otherwise a record or a ParseError after consuming [span] lines *)
-  Definition csv_read (usable : bool) (s : csvst) : csvst * bool (* EOF? *) :=
-    if negb usable then (s, false)
-    else if Nat.eqb (lines_left s) 0 then (mkCsv (S (numline s)) 0, true)
-    else (mkCsv (numline s + span s) (lines_left s - span s), false).
+     unusable; a failure of the input (readLine still counts the line); io.EOF at the end;
+     otherwise a record or a ParseError after consuming [span] lines *)
+  Definition csv_read (usable : bool) (s : csvst) : csvst * csvres :=
+    if negb usable then (s, CsvOtherErr)
+    else if io_fails s then (mkCsv (S (numline s)) (lines_left s), CsvOtherErr)
+    else if Nat.eqb (lines_left s) 0 then (mkCsv (S (numline s)) 0, CsvEOF)
+    else (mkCsv (numline s + span s) (lines_left s - span s), CsvRecOrParseErr).
 
   Fixpoint jump_to (fuel : nat) (usable : bool) (row : nat) (s : csvst) : jump :=
     match fuel with
     | O => JumpOutOfFuel
     | S k =>
         if Nat.ltb (numline s) row then
-          let '(s', eof) := csv_read usable s in
-          if eof then JumpEOF else jump_to k usable row s'
+          match csv_read usable s with
+          | (_, CsvEOF) => JumpEOF
+          | (_, CsvOtherErr) => JumpFailed
+          | (s', CsvRecOrParseErr) => jump_to k usable row s'
+          end
+        else JumpDone s
+    end.
+
+  (* before the fix: every error but io.EOF is ignored *)
+  Fixpoint jump_to_old (fuel : nat) (usable : bool) (row : nat) (s : csvst) : jump :=
+    match fuel with
+    | O => JumpOutOfFuel
+    | S k =>
+        if Nat.ltb (numline s) row then
+          match csv_read usable s with
+          | (_, CsvEOF) => JumpEOF
+          | (s', _) => jump_to_old k usable row s'
+          end
         else JumpDone s
     end.
 End Jump.
